@@ -87,6 +87,7 @@ def synth_meta(rng, kind, nch, nsync=1, sites=None, gains=None):
     ncol = 8 if base == "NPultra" else 2
     nrow = {"NPultra": 48, "NP2.4": 640, "NP2.1": 640}.get(base, 480)
     # distinct sites, random order on disk (interleaved shanks for NP2.4)
+    sites_given = sites
     if sites is None:
         sites = set()
         while len(sites) < nch:
@@ -95,6 +96,8 @@ def synth_meta(rng, kind, nch, nsync=1, sites=None, gains=None):
         rng.shuffle(sites)
         if rng.random() < 0.25:      # the usual layout: already sorted on disk
             sites.sort(key=lambda s: (s[0], s[2], s[1]))
+    if base == "NP2.4" and sites_given is None and rng.random() < 0.4:
+        L.append("NP2.4_shank=%d" % rng.choice(sites)[0])      # a split (single shank) file
     L += ["acqApLfSy=%d,%d,%d" % (nch, nch if base in ("3A", "3B2", "3B2geom") else 0, nsync),
           "imSampRate=%r" % fs, "nSavedChans=%d" % (nch + nsync),
           "snsApLfSy=%s" % ("0,%d,%d" % (nch, nsync) if lf else "%d,0,%d" % (nch, nsync)),
@@ -138,14 +141,20 @@ def synth_meta(rng, kind, nch, nsync=1, sites=None, gains=None):
 class Recording:
     """A mock recording on disk + everything the harness knows about it."""
 
-    def __init__(self, tdir, name, meta_text, fs, ns, nc, D, cbin, chunk_samples, label):
+    def __init__(self, tdir, name, meta_text, fs, ns, nc, D, cbin, chunk_samples, label, flat=None):
         self.label, self.ns, self.nc, self.D, self.cbin = label, ns, nc, D, cbin
+        self.flat = flat            # None, or dict(nsync=.., dtype=..): a flat binary without .meta
+        self.as_str = False
         d = Path(tdir) / name
         d.mkdir(parents=True, exist_ok=True)
         self.dir = d
-        stem = "rec.imec0.ap" if "typeThis=nidq" not in meta_text else "rec.nidq"
-        self.meta_file = d / (stem + ".meta")
-        self.meta_file.write_text(patch_meta_text(meta_text, ns, nc, fs))
+        if flat is not None:
+            stem = "flat"
+            self.meta_file = None
+        else:
+            stem = "rec.imec0.ap" if "typeThis=nidq" not in meta_text else "rec.nidq"
+            self.meta_file = d / (stem + ".meta")
+            self.meta_file.write_text(patch_meta_text(meta_text, ns, nc, fs))
         self.bin_file = d / (stem + ".bin")
         D.tofile(self.bin_file)
         self.file = self.bin_file
@@ -162,7 +171,11 @@ class Recording:
 
     def open(self, sort):
         import spikeglx
-        return spikeglx.Reader(self.file, sort=sort)
+        f = str(self.file) if self.as_str else self.file
+        if self.flat is not None:
+            return spikeglx.Reader(f, nc=self.nc, ns=self.ns, fs=30000, nsync=self.flat["nsync"],
+                                   dtype=self.flat["dtype"], sort=sort)
+        return spikeglx.Reader(f, sort=sort)
 
 
 # --------------------------------------------------------------------------
@@ -174,7 +187,17 @@ def to_py(s):
         return int(s[1]) if s[2] == "py" else np.int64(s[1])
     if s[0] == "slice":
         return slice(s[1], s[2], s[3])
-    return list(s[1]) if s[2] == "list" else np.array(s[1], dtype=np.int64)
+    if s[2] == "list":
+        return list(s[1])
+    if s[2] == "array32":
+        return np.array(s[1], dtype=np.int32)
+    if s[2] == "uint16" and all(v >= 0 for v in s[1]):
+        return np.array(s[1], dtype=np.uint16)
+    if s[2] == "strided":           # a non-contiguous view
+        a = np.zeros(2 * len(s[1]), dtype=np.int64)
+        a[::2] = s[1]
+        return a[::2]
+    return np.array(s[1], dtype=np.int64)
 
 
 def enc_sel(s):
@@ -193,7 +216,8 @@ def sel_str(s):
         return ("%d" if s[2] == "py" else "np.int64(%d)") % s[1]
     if s[0] == "slice":
         return "slice(%s,%s,%s)" % s[1:4]
-    return ("%s" if s[2] == "list" else "np.array(%s)") % (list(s[1]),)
+    return ("%s" if s[2] == "list" else "np.array(%s)" if s[2] == "array" else "np.array(%s)<" + s[2] + ">") % (
+        list(s[1]),)
 
 
 def gen_int(rng, n, np_ok=True):
@@ -229,7 +253,7 @@ def gen_list(rng, n, maxlen=8):
         l[-1] = l[0]
     if bad and k:
         l[rng.randrange(k)] = rng.choice([n, -n - 1, n + 5])
-    return ("list", l, rng.choice(["list", "array"]))
+    return ("list", l, rng.choice(["list", "list", "array", "array", "array32", "uint16", "strided"]))
 
 
 def gen_sel(rng, n, maxlen=None, lists=True):
@@ -574,6 +598,15 @@ def build_recordings(ctx, tdir):
         for cbin in (False, True):
             recs.append(dict(name="l_%d_%d" % (ns, cbin), text=text, fs=fs, ns=ns, nc=nc, cbin=cbin, chunk=chunk,
                              label="long:%s:%d" % (kind, ns), big=False, exp_s2v=exp))
+    # flat binaries without a .meta file: Reader(file, nc=, ns=, fs=) — no geometry, no permutation
+    S2V_AP = 2.34375e-06
+    for k, (dtype, nsync, nc) in enumerate([("int16", 1, 7), ("int16", 0, 5), ("float32", 0, 4), ("int16", 2, 9)]):
+        exp = ([S2V_AP if dtype == "int16" else 1.0] * nc)
+        for j in range(nsync):
+            exp[nc - 1 - j] = 1.0
+        recs.append(dict(name="flat_%d" % k, text=None, fs=30000.0, ns=rng.choice([5, 13, 32]), nc=nc, cbin=False,
+                         chunk=1, label="flat:%s:nsync%d" % (dtype, nsync), big=False, exp_s2v=exp,
+                         flat={"nsync": nsync, "dtype": dtype}))
     # the sweep recordings: tiny, every slice triple
     for cbin in (False, True):
         text, fs, nc, exp = synth_meta(rng, "NP2.4", 4)
@@ -582,7 +615,11 @@ def build_recordings(ctx, tdir):
     out = []
     for r in recs:
         D = rand_D(nprng, r["ns"], r["nc"])
-        rec = Recording(tdir, r["name"], r["text"], r["fs"], r["ns"], r["nc"], D, r["cbin"], r["chunk"], r["label"])
+        if r.get("flat") and r["flat"]["dtype"] != "int16":
+            D = D.astype(r["flat"]["dtype"])
+        rec = Recording(tdir, r["name"], r["text"], r["fs"], r["ns"], r["nc"], D, r["cbin"], r["chunk"], r["label"],
+                        flat=r.get("flat"))
+        rec.as_str = rng.random() < 0.3
         rec.big = r["big"]
         rec.sweep = r.get("sweep", False)
         rec.exp_s2v = r.get("exp_s2v")
@@ -592,6 +629,52 @@ def build_recordings(ctx, tdir):
         rec.chunk = r["chunk"]
         out.append(rec)
     return out
+
+
+GEN_CODE = {None: -1, 1: 0, 2: 1, 2.4: 2, "NPultra": 3}
+
+
+def order_query(rec, sort):
+    """Input of the Coq model's api 3 (raw_channel_order through C08's geometry model), from
+    the meta text alone: probe generation, encoding, parsed site table, NP2.4_shank key."""
+    import re
+    import spikeglx
+    md = spikeglx.read_meta_data(rec.meta_file)
+    g = GEN_CODE[spikeglx._get_neuropixel_major_version_from_meta(md)]
+    if "snsShankMap" in md:
+        enc, txt = 0, md["snsShankMap"]
+    elif "snsGeomMap" in md:
+        enc, txt = 1, md["snsGeomMap"]
+    else:
+        enc, txt = 2, ""
+    sites = [[int(float(x)) for x in m.split(":")]
+             for m in re.findall(r"([0-9]*:[0-9]*:[0-9]*:[0-9]*)", txt if isinstance(txt, str) else "")]
+    split = int(md["NP2.4_shank"]) if "NP2.4_shank" in md else -1
+    return [3, g, enc, 1 if sort else 0, split, rec.nc, len(sites)] + [v for st in sites for v in st]
+
+
+def model_orders(ctx, recs, stats):
+    """raw_channel_order predicted by the Coq model (C08 geometry + reader_order) for every
+    (recording, sort); identical meta texts are evaluated once."""
+    queries, keys = [], {}
+    for rec in recs:
+        rec.model_order = {}
+        if rec.flat is not None:
+            continue
+        for sort in (True, False):
+            q = order_query(rec, sort)
+            k = tuple(q)
+            if k not in keys:
+                keys[k] = len(queries)
+                queries.append(q)
+            rec.model_order[sort] = k
+    outs = common.Extracted(PROP).run_many(queries, nproc=4) if queries else []
+    for rec in recs:
+        for sort, k in list(rec.model_order.items()):
+            o = outs[keys[k]]
+            rec.model_order[sort] = (list(k), o[1:] if o and o[0] == 1 else None)
+    stats["order_queries"] = len(queries)
+    return queries, outs
 
 
 def geometry_clauses(ctx, rec, sr, su, sort, desc):
@@ -639,10 +722,10 @@ def d_b64(rec):
 
 
 def describe(rec, sort, case):
-    return {"label": rec.label, "meta_text": rec.text, "fs": rec.fs, "ns": rec.ns, "nc": rec.nc,
+    return {"label": rec.label, "flat": rec.flat, "meta_text": rec.text, "fs": rec.fs, "ns": rec.ns, "nc": rec.nc,
             "cbin": rec.cbin, "chunk": rec.chunk, "sort": sort, "api": case["api"] if case else None,
             "sels": case["sels"] if case else None,
-            "call": call_str(case) if case else None, "D_int16_b64": d_b64(rec)}
+            "call": call_str(case) if case else None, "D_dtype": str(rec.D.dtype), "D_int16_b64": d_b64(rec)}
 
 
 def call_str(case):
@@ -665,7 +748,51 @@ def model_eligible(rec, case):
         return False
     if api == "getitemk" and any(s[0] == "int" and s[2] == "np" for s in sels):
         return False
+    if rec.flat is not None and len(sels) == 2 and sel_invalid(sels[0], rec.ns) and sel_invalid(sels[1], rec.nc):
+        return False      # no channel order on a flat reader: the sample selector's error comes first there
     return True
+
+
+def sync_pair(sr, case, obs):
+    """read(nsel, csel) / read_samples(...) with the default sync=True: the first element is the
+    sync=False result bit for bit, the second is read_sync(nsel) (whose content is C10's)."""
+    sels = case["sels"]
+    p = [to_py(x) for x in sels]
+    nsel = p[0] if case["api"] == "read" else slice(sels[0][1], sels[0][2])
+
+    def both():
+        if case["api"] == "read":
+            return sr.read(p[0], p[1])
+        return sr.read_samples(sels[0][1], sels[0][2], p[1] if len(p) > 1 else None)
+    try:
+        with warnings.catch_warnings():
+            warnings.simplefilter("ignore")
+            ref = sr.read_sync(nsel)
+        ref_err = None
+    except Exception as e:      # noqa
+        ref, ref_err = None, type(e).__name__
+    try:
+        with warnings.catch_warnings():
+            warnings.simplefilter("ignore")
+            r = both()
+        err = None
+    except Exception as e:      # noqa
+        r, err = None, type(e).__name__
+    if obs[0] == "err":
+        return None if err is not None else "sync=False raises %s but sync=True returned" % obs[1]
+    if err is not None:
+        return None if (ref_err is not None) else "sync=True raised %s although read_sync and the data read succeed" % err
+    if ref_err is not None:
+        return "read_sync raises %s but read(sync=True) returned" % ref_err
+    if not (isinstance(r, tuple) and len(r) == 2):
+        return "read(sync=True) did not return a pair"
+    d = observe(lambda: r[0])
+    if d[0] != "ok" or tuple(d[1]) != tuple(obs[1]) or d[2] != obs[2] or not np.array_equal(d[3], obs[3]):
+        return "data element of read(sync=True) differs from the sync=False result"
+    a, b = np.asarray(r[1]), np.asarray(ref)
+    if a.shape != b.shape or a.dtype != b.dtype or not np.array_equal(a, b):
+        return "second element of read(sync=True) differs from read_sync(nsel)"
+    return None
 
 
 def check_recording(ctx, rec, stats, work):
@@ -690,11 +817,37 @@ def check_recording(ctx, rec, stats, work):
                 ctx.fail("reader shape %s differs from the file's %s" % ((sr.ns, sr.nc), (rec.ns, rec.nc)),
                          describe(rec, sort, None), {"kind": "shape"})
                 continue
-            exp_order = geometry_clauses(ctx, rec, sr, su, sort, describe(rec, sort, None))
-            order = [int(x) for x in sr.raw_channel_order]
+            if rec.flat is not None:
+                if sort is False:
+                    continue                      # no geometry, sort has no effect
+                exp_order = list(range(rec.nc))
+                order = exp_order
+                bad = []
+                if hasattr(sr, "raw_channel_order"):
+                    bad.append("flat reader has a channel order")
+                s2v = np.asarray(sr.channel_conversion_sample2v[sr.type])
+                if not np.array_equal(s2v, np.asarray(rec.exp_s2v)):
+                    bad.append("flat reader: volts-per-bit vector is not s2v with 1.0 on the sync channels")
+                for b in bad:
+                    ctx.fail(b, describe(rec, sort, None), {"kind": "flat"})
+            else:
+                exp_order = geometry_clauses(ctx, rec, sr, su, sort, describe(rec, sort, None))
+                impl_order = [int(x) for x in sr.raw_channel_order]
+                q, order = rec.model_order[sort]
+                if order is None:
+                    ctx.disagree("meta outside the geometry model's domain (model returned None)",
+                                 describe(rec, sort, None), {"kind": "order"})
+                    order = impl_order
+                elif order != impl_order:
+                    k = next(i for i, (a, b) in enumerate(zip(order, impl_order)) if a != b)
+                    ctx.disagree("raw_channel_order: implementation and Coq model (C08 geometry index + "
+                                 "reader_order) differ at column %d (model %s, implementation %s)" % (
+                                     k, order[k:k + 4], impl_order[k:k + 4]),
+                                 describe(rec, sort, None), {"kind": "order"})
+                stats["order_compared"] += 1
             s2v = np.asarray(sr.channel_conversion_sample2v[sr.type])
             noninv = any(order[order[j]] != j for j in range(rec.nc))
-            nonuni = len(set(float(x) for x in s2v[:rec.nc - sr.nsync])) > 1
+            nonuni = len(set(float(x) for x in s2v[:rec.nc - (sr.nsync or 0)])) > 1
             stats["readers_noninvolutive_order"] += noninv
             stats["readers_noninvolutive_order_and_nonuniform_gains"] += noninv and nonuni
             stats["max_ns"] = max(stats["max_ns"], rec.ns)
@@ -711,6 +864,9 @@ def check_recording(ctx, rec, stats, work):
             else:
                 n = (60 if ctx.thorough() else 14) if rec.big else (150 if ctx.thorough() else 34)
                 cases = gen_cases(rng, rec.ns, rec.nc, rec.cbin, n, rec.big)
+                if rec.flat is not None:
+                    # read_samples / read(sync=True) need the meta (read_sync; see notes F-C01-e): not used here
+                    cases = [c for c in cases if c["api"] != "read_samples"]
             for case in cases:
                 obs = run_impl(sr, case)
                 stats["api"][case["api"]] = stats["api"].get(case["api"], 0) + 1
@@ -730,6 +886,12 @@ def check_recording(ctx, rec, stats, work):
                                   "selector": selector_class(rec, case)})
                 if model_eligible(rec, case):
                     work.append((rec, sort, case, obs, s2v, enc_case(rec, order, case)))
+                if rec.flat is None and case["api"] in ("read", "read_samples") and rng.random() < 0.35:
+                    why = sync_pair(sr, case, obs)
+                    stats["sync_pair_checks"] += 1
+                    if why:
+                        ctx.fail(why + " — " + call_str(case), describe(rec, sort, case),
+                                 {"kind": "sync_pair", "file": "cbin" if rec.cbin else "bin", "api": case["api"]})
                 if obs[0] == "ok" and obs[3] is not None and obs[3].size >= 2:
                     stats["nontrivial"].add((rec.label, rec.cbin, sort, call_str(case)))
     finally:
@@ -743,8 +905,8 @@ def check_recording(ctx, rec, stats, work):
 def run(ctx):
     os.environ["TQDM_DISABLE"] = "1"
     logging.disable(logging.CRITICAL)
-    common.proof_obligations(ctx, whitelist=[])
-    stats = {"api": {}, "outcome": {}, "selector": {}, "file": {"bin": 0, "cbin": 0}, "sorted": 0, "unsorted": 0,
+    common.proof_obligations(ctx, whitelist=sorted(common.STDLIB_AXIOMS), coqchk_admit=["IBL.C01.SyncSweep"])
+    stats = {"order_compared": 0, "sync_pair_checks": 0, "api": {}, "outcome": {}, "selector": {}, "file": {"bin": 0, "cbin": 0}, "sorted": 0, "unsorted": 0,
              "oracle_evaluations": 0, "nontrivial": set(), "recordings": 0, "kinds": {},
              "readers_noninvolutive_order": 0, "readers_noninvolutive_order_and_nonuniform_gains": 0,
              "max_ns": 0, "max_chunks": 0}
@@ -752,6 +914,7 @@ def run(ctx):
     tdir = common.tmpdir("C01_")
     try:
         recs = build_recordings(ctx, tdir)
+        oq, oo = model_orders(ctx, recs, stats)
         for rec in recs:
             check_recording(ctx, rec, stats, work)
             stats["recordings"] += 1
@@ -769,13 +932,18 @@ def run(ctx):
                          {"kind": "read", "file": "cbin" if rec.cbin else "bin", "api": case["api"],
                           "selector": selector_class(rec, case)})
     # ---- the same `run`, evaluated by the kernel on a sample (ties the extraction to the definitions)
+    # the order queries take part in the kernel sample too
+    nwork = len(inputs)
+    inputs = inputs + oq
+    model_out = model_out + oo
     idx = [i for i in range(len(inputs)) if len(inputs[i]) + len(model_out[i]) < 1500]
     small = sorted(idx, key=lambda i: len(inputs[i]) + len(model_out[i]))
     pick = list(dict.fromkeys(small[:30] + ctx.rng.sample(idx, min(len(idx), 90 if ctx.thorough() else 50))))
     terms = [common.flat_cases_term(i, inputs[i], model_out[i]) for i in pick]
     bad = common.coq_mismatches(PROP, HEADER, terms, shard=40) if terms else []
     for i in bad:
-        ctx.disagree("kernel-evaluated model differs from the extracted model", describe(*work[i][:3]))
+        ctx.disagree("kernel-evaluated model differs from the extracted model",
+                     describe(*work[i][:3]) if i < nwork else {"order_query": inputs[i]})
     ctx.coverage["model_evaluations_extracted"] = len(inputs)
     ctx.coverage["model_evaluations_kernel"] = len(pick)
     samples = []
@@ -802,21 +970,31 @@ def replay(ctx, data):
     os.environ["TQDM_DISABLE"] = "1"
     logging.disable(logging.CRITICAL)
     inp = data.get("input") or (data.get("correspondence_disagreements") or [{}])[0].get("input")
-    if not inp or not inp.get("sels"):
+    if not inp or not inp.get("label"):
         print(json.dumps(data, indent=1)[:3000])
         return 1
+    if not inp.get("sels"):      # a clause about the reader itself (order / geometry): use a neutral call
+        inp = dict(inp, api="read", sels=[("slice", None, None, None), ("slice", None, None, None)])
+        print("recorded failure:", data.get("what") or (data.get("correspondence_disagreements") or [{}])[0].get("what"))
     case = {"api": inp["api"], "sels": [tuple(s) for s in inp["sels"]]}
     tdir = common.tmpdir("C01_")
     try:
-        D = np.frombuffer(base64.b64decode(inp["D_int16_b64"]), dtype=np.int16).reshape(inp["ns"], inp["nc"]).copy()
+        D = np.frombuffer(base64.b64decode(inp["D_int16_b64"]), dtype=np.dtype(inp.get("D_dtype", "int16"))
+                          ).reshape(inp["ns"], inp["nc"]).copy()
         rec = Recording(tdir, "replay", inp["meta_text"], inp["fs"], inp["ns"], inp["nc"], D, inp["cbin"],
-                        inp["chunk"], inp["label"])
+                        inp["chunk"], inp["label"], flat=inp.get("flat"))
         sr, su = rec.open(inp["sort"]), rec.open(False)
         if rec.cbin:
             rec.bounds = [int(b) for b in sr._raw.chunk_bounds]
-        order = [int(x) for x in sr.raw_channel_order]
         s2v = np.asarray(sr.channel_conversion_sample2v[sr.type])
-        exp_order = expected_order(su.geometry, rec.nc, inp["sort"])
+        if rec.flat is not None:
+            order = exp_order = list(range(rec.nc))
+        else:
+            impl_order = [int(x) for x in sr.raw_channel_order]
+            o = common.Extracted(PROP).run_many([order_query(rec, inp["sort"])], nproc=1)[0]
+            order = o[1:] if o and o[0] == 1 else impl_order
+            print("raw_channel_order: model == implementation:", order == impl_order)
+            exp_order = expected_order(su.geometry, rec.nc, inp["sort"])
         CS = rec.D.astype(np.float32)[:, exp_order]
         CS = (CS.astype(s2v.dtype) * s2v[exp_order]).astype(np.float32)
         obs = run_impl(sr, case)
@@ -830,6 +1008,12 @@ def replay(ctx, data):
             out = common.Extracted(PROP).run_many([enc_case(rec, order, case)], nproc=1)[0]
             dis = compare_model(rec, s2v, obs, decode_model(out))
             print("model:", out[:12], "->", dis or "agrees with the implementation")
+        if rec.flat is None and case["api"] in ("read", "read_samples"):
+            sp = sync_pair(sr, case, obs)
+            print("read(sync=True) pair:", sp or "consistent with read(sync=False) and read_sync")
+            why = why or sp
+        if rec.flat is None and order != [int(x) for x in sr.raw_channel_order]:
+            dis = dis or "channel order differs"
         sr.close()
         su.close()
         return 1 if (why or dis) else 0
